@@ -67,6 +67,45 @@ def obs (s : State) (now : Nat) : String :=
 
 def parseNat (s : String) : Nat := s.toNat?.getD 0
 
+/-- score text (`strconv.FormatFloat(x,'f',-1,64)` of a multiple of 1/4) to quarter units -/
+def parseScoreQ (b : Bytes) : Int :=
+  let str := String.ofList (b.map fun x => Char.ofNat x.toNat)
+  let (neg, body) := if str.startsWith "-" then (true, (str.drop 1).toString) else (false, str)
+  let parts := body.splitOn "."
+  let whole := (parts.headD "0").toNat?.getD 0
+  let frac := match parts.getD 1 "" with
+    | "25" => 1 | "5" => 2 | "75" => 3 | _ => 0
+  let q : Int := (whole * 4 + frac : Nat)
+  if neg then -q else q
+
+/-- parse `off:flag:ds:status:txid:ts:ttl:bucket/key=value` -/
+def parseRecLine (t : String) : Option (Nat × Rec) :=
+  match t.splitOn ":" with
+  | [o, fl, ds, st, tx, ts, ttl, rest] =>
+    match rest.splitOn "/" with
+    | [b, kv] =>
+      match kv.splitOn "=" with
+      | [k, vv] =>
+        let key := parseBytes k
+        let flag := parseNat fl
+        let score := if flag == flagZAdd then (match splitSep key with | _ :: sc :: _ => parseScoreQ sc | _ => 0) else 0
+        some (parseNat o, { bucket := parseBytes b, key := key, value := parseBytes vv, ts := parseNat ts, ttl := parseNat ttl, flag := flag,
+                            ds := parseNat ds, txid := parseNat tx, status := parseNat st, score := score })
+      | _ => none
+    | _ => none
+  | _ => none
+
+/-- parse a file listing `fid{rec,rec,…};fid{…}`; an item `off:readerr` marks a torn tail -/
+def parseFiles (t : String) : List File :=
+  if t == "" then [] else
+  (t.splitOn ";").filterMap fun f =>
+    match f.splitOn "{" with
+    | [fid, body] =>
+      let body := (body.dropEnd 1).toString
+      let items := if body == "" then [] else body.splitOn ","
+      some { fid := parseNat fid, recs := items.filterMap parseRecLine, torn := items.any fun i => i.endsWith "readerr" }
+    | _ => none
+
 def v (model : String) (cell : String) (tag : String := "in-guard") : Verdict :=
   { model := model, specOk := none, cell := cell, tag := tag }
 
@@ -124,9 +163,26 @@ def stepModel (st : St) (cmd : String) (impl : String) : St × Verdict :=
     let m := (match o with | .ok _ => "ok" | .err => "err" | .panic => "panic") ++ " txids=" ++ idsStr
     ({ st with db := s' }, v m s!"merge/{(impl.splitOn " ").headD ""}")
   | "obs" => (st, v ("ok " ++ obs s (N 1)) "obs")
+  | "capture" => (st, v "ok" "capture")
+  | "image" =>
+    -- the crash image is an input (its record listing comes from the implementation's own reader);
+    -- the model predicts what Open does with it and what is observed afterwards
+    let payload := resPayload impl
+    let field (name : String) : String := match payload.splitOn (name ++ "=") with
+      | _ :: x :: _ => (x.splitOn " ").headD ""
+      | _ => ""
+    let fsL := parseFiles (field "files")
+    let (s', o) := openDB s.opt fsL
+    let now := N 2
+    let pred := match o with
+      | .ok _ => "open=ok obs=" ++ obs s' now
+      | .err => "open=err"
+      | .panic => "open=panic"
+    let head := match payload.splitOn " open=" with | h :: _ => h | [] => ""
+    (st, v ("ok " ++ head ++ " " ++ pred) s!"image/{field "event"}/{field "open"}")
   | "files" =>
     let showF (f : File) : String := toString f.fid ++ "{" ++ ",".intercalate (f.recs.map fun (o, r) =>
-      s!"{o}:{r.flag}:{r.ds}:{r.status}:{r.txid}:" ++ hexOfBytes r.bucket ++ "/" ++ hexOfBytes r.key ++ "=" ++ hexOfBytes r.value) ++ "}"
+      s!"{o}:{r.flag}:{r.ds}:{r.status}:{r.txid}:{r.ts}:{r.ttl}:" ++ hexOfBytes r.bucket ++ "/" ++ hexOfBytes r.key ++ "=" ++ hexOfBytes r.value) ++ "}"
     (st, v ("ok " ++ ";".intercalate (s.files.map showF)) "files")
   -- ---------------- KV
   | "put" =>
@@ -301,7 +357,7 @@ def step (st : St) (cmd : String) (impl : String) : St × Verdict :=
   let (st1, vm) := stepModel st cmd impl
   let out := DBSpec.step st.sp st.db cmd impl
   let taints := match out.taint with
-    | some t => if out.st.taints.contains t then out.st.taints else t :: out.st.taints
+    | some t => if out.st.taints.contains t || !out.sticky then out.st.taints else t :: out.st.taints
     | none => out.st.taints
   let sp1 := { out.st with taints := taints }
   let specOk := out.expect.map fun e => e.accepts impl
